@@ -1,4 +1,5 @@
 import CuriesVerif.Check
+import CuriesVerif.Spec.W3C
 
 /-!
 # JSON-lines driver
@@ -23,6 +24,24 @@ def handle (j : Json) : Except String Json := do
       | .error _ => pure []
     pure (Json.mkObj [("model", .arr (vals.map Codec.encVal).toArray),
       ("fail", .arr (fails.map Json.str).toArray)])
+  | "w3c" =>
+    -- {"k":"w3c","space":[code points],"strs":[...],"obs":[[prefixBool,curieBool],…]}
+    let sp ← (← (Codec.fieldD j "space" (.arr #[])).getArr?).toList.mapM (·.getNat?)
+    let space : Nat → Bool := fun n => sp.contains n
+    let ss ← Codec.strs (← j.getObjVal? "strs")
+    let model := ss.map fun s => Json.arr #[.bool (W3C.isW3cPrefix s), .bool (W3C.isW3cCurie space s)]
+    let fails ← match j.getObjVal? "obs" with
+      | .ok o => do
+        let obs ← (← o.getArr?).toList.mapM fun x => do
+          match (← x.getArr?).toList with
+          | [.bool a, .bool b] => pure (a, b)
+          | _ => throw "pair of booleans expected"
+        pure ((ss.zip obs).zipIdx.filterMap fun ((s, (a, b)), i) =>
+          if a != Spec.W3C.ncName s then some s!"{i}: is_w3c_prefix is {a} but the string is {if a then "not " else ""}an ASCII NCName"
+          else if b != Spec.W3C.curie space s then some s!"{i}: is_w3c_curie is {b}, the documented grammar says {!b}"
+          else none)
+      | .error _ => pure []
+    pure (Json.mkObj [("model", .arr model.toArray), ("fail", .arr (fails.map Json.str).toArray)])
   | _ => throw s!"unknown kind {k}"
 
 partial def loop (hin hout : IO.FS.Stream) : IO Unit := do
